@@ -34,6 +34,9 @@ def observe(r):
     changed = bool(r["written"]) or bool(r["deleted"])
     im["changed"] = "yes" if changed else "no"
     im["changed-on-failure"] = "yes" if (run["rc"] != 0 and changed) else "no"
+    # "... and a diagnostic": a non-zero exit whose stderr holds nothing but a Go stack trace (or nothing at all) is silent
+    text = [ln for ln in err.splitlines() if ln.strip()]
+    im["silent-failure"] = "yes" if (run["rc"] != 0 and (not text or panic)) else "no"
     site = ""
     if panic:
         msg = "?"
@@ -54,6 +57,50 @@ def observe(r):
     return im, site
 
 
+def mutate_value(rng, v):
+    """a string near `v`: case flips, an added / dropped / doubled character"""
+    ops = rng.choice(["upper", "title", "swap", "add", "drop", "dup", "space", "same"])
+    if ops == "upper":
+        return v.upper()
+    if ops == "title":
+        return v[:1].upper() + v[1:]
+    if ops == "swap" and v:
+        i = rng.randrange(len(v))
+        return v[:i] + v[i].swapcase() + v[i + 1:]
+    if ops == "add":
+        i = rng.randrange(len(v) + 1)
+        return v[:i] + rng.choice("_-x1 .") + v[i:]
+    if ops == "drop" and v:
+        i = rng.randrange(len(v))
+        return v[:i] + v[i + 1:]
+    if ops == "dup" and v:
+        i = rng.randrange(len(v))
+        return v[:i] + v[i] + v[i:]
+    if ops == "space":
+        return rng.choice([" " + v, v + " "])
+    return v
+
+
+def near_value_case(rng, cid):
+    """an enumerated-value flag with a value near a valid one; valid -> the run succeeds, anything else -> exit 2"""
+    kind = rng.choice(["tagcase", "tagcase", "way", "bool"])
+    if kind == "tagcase":
+        v = mutate_value(rng, rng.choice(cligen.TAGCASE_VALID))
+        base, ok = cligen.base_new(), v in cligen.TAGCASE_VALID
+        args = ["new", "-json"] + rng.choice([[], ["-getset"], ["-opt"]]) + ["-tagcase=" + v, rng.choice(["-type=User", "-type=*", "-file=a.go"])]
+    elif kind == "way":
+        v = mutate_value(rng, rng.choice(cligen.WAY_VALID))
+        base, ok = cligen.base_map(), v in cligen.WAY_VALID
+        args = ["map", "-path=../dest", "-way=" + v, rng.choice(["-type=Order", "-type=Order,User", "-file=b.go"])]
+    else:
+        cmd, flag = rng.choice([("new", "-json"), ("new", "-getset"), ("enum", "-bit"), ("enum", "-text"), ("map", "-i"), ("rest", "-sep")])
+        v = mutate_value(rng, rng.choice(["true", "false", "1", "0"]))
+        base, ok = cligen.BASES[cmd](), v in cligen.BOOL_VALID
+        args = [cmd] + [f for f in base["flags"] if not f.startswith(flag)] + ["%s=%s" % (flag, v), "-type=" + base["good"][0]]
+    c = cligen.c18_case(cid, base, args, "none" if ok else "badFlagValue", outs=["x"] if ok else [], tags=["flag-value near " + kind])
+    return c
+
+
 def random_cases(ctx, start):
     """seeded leg: damage whose outcome the classifier predicts, applied to random C16 packages"""
     rng = ctx.rng
@@ -67,7 +114,12 @@ def random_cases(ctx, start):
         good = pkg["elig_hint"]
         fnames = [f["name"] for f in pkg["files"]]
         choice = rng.choice(["none", "typeMissing", "fileMissing", "fileNotGo", "noSelection", "unknownFlag", "dirMissing",
-                             "badFlagValue", "unknownSub", "typeMissing2"])
+                             "badFlagValue", "unknownSub", "typeMissing2", "nearValue", "nearValue"])
+        if choice == "nearValue":
+            c = near_value_case(rng, "r%d" % (start + i))
+            if c:
+                out.append(c)
+            continue
         outs = []
         if choice == "none":
             if not good:
